@@ -1,6 +1,197 @@
-//! C12 — not built yet.
-use crate::ev::Tier;
-pub fn main(_tier: Tier, _replay: Option<serde_json::Value>) -> i32 {
-    eprintln!("C12: check not built yet");
-    2
+//! C12 — curve-group components compute the JubJub group law.
+
+use dusk_jubjub::{GENERATOR_EXTENDED, GENERATOR_NUMS_EXTENDED};
+use dusk_plonk::prelude::*;
+use serde_json::json;
+
+use crate::e2::Gadget;
+use crate::ev::{Run, Tier};
+use crate::fe::*;
+use crate::gadget::*;
+use crate::m5::{self, Pt};
+
+fn points(tier: Tier) -> Vec<(String, Pt)> {
+    let g = Pt::from_jubjub(GENERATOR_EXTENDED);
+    let gn = Pt::from_jubjub(GENERATOR_NUMS_EXTENDED);
+    let mut rho = Rho::new(seed(), 1212);
+    let r1 = U320::from_fe(&m5::low_bits(&rho.next_fe(), 250));
+    let r2 = U320::from_fe(&m5::low_bits(&rho.next_fe(), 250));
+    let mut v = vec![
+        ("O".to_string(), Pt::identity()),
+        ("G".to_string(), g),
+        ("2G".to_string(), g.double().unwrap()),
+        ("-G".to_string(), g.neg()),
+        ("rG".to_string(), g.mul(&r1).unwrap()),
+    ];
+    if tier == Tier::Thorough {
+        v.push(("r'Gn".to_string(), gn.mul(&r2).unwrap()));
+    }
+    v
+}
+
+fn typed(c: &Composer, x: Witness, y: Witness) -> TorsionFreeWitnessPoint {
+    TorsionFreeWitnessPoint::new_unchecked(c.verif_point(x, y))
+}
+
+pub fn cases(tier: Tier) -> Vec<GCase> {
+    let mut out = vec![];
+    let pts = points(tier);
+    // add / sub over all ordered pairs (incl. P + (-P), P + P, P + O)
+    for (n1, p1) in &pts {
+        for (n2, p2) in &pts {
+            let sum = p1.add(p2).unwrap();
+            let dif = p1.add(&p2.neg()).unwrap();
+            let g = Gadget::new(&format!("add_point/{}+{}", n1, n2), vec![p1.x, p1.y, p2.x, p2.y], |c, ins| {
+                let r = c.component_add_point(typed(c, ins[0], ins[1]), typed(c, ins[2], ins[3]));
+                Ok(vec![*r.x(), *r.y()])
+            });
+            let mut c = GCase::new(g, Expect::Sat(vec![sum.x, sum.y]), "add_point");
+            c.bound2 = true;
+            // solved-for forgery triples: a wrong helper x1*y2 with x3, y3 solved
+            // from the two remaining identities
+            let (p1c, p2c) = (*p1, *p2);
+            c.named = Some(std::sync::Arc::new(move |h: &crate::e2::Honest| {
+                let d = crate::m1::edwards_d();
+                let mut devs = vec![];
+                let honest = p1c.x * p2c.y;
+                for (tag, xy) in [("+1", honest + one()), ("0", zero()), ("neg", -honest), ("x2y1", p2c.x * p1c.y + one())] {
+                    if xy == honest {
+                        continue;
+                    }
+                    let y1x2 = p1c.y * p2c.x;
+                    let dx = one() + d * xy * y1x2;
+                    let dy = one() - d * xy * y1x2;
+                    if dx == zero() || dy == zero() {
+                        continue;
+                    }
+                    let x3 = (xy + y1x2) * inv(dx);
+                    let y3 = (p1c.y * p2c.y + p1c.x * p2c.x) * inv(dy);
+                    let lo = h.meta.lo;
+                    devs.push(crate::e2::Dev { script: vec![(lo, xy), (lo + 1, x3), (lo + 2, y3)], tag: format!("forged-helper{}", tag) });
+                }
+                devs
+            }));
+            out.push(c);
+            let g = Gadget::new(&format!("sub_point/{}-{}", n1, n2), vec![p1.x, p1.y, p2.x, p2.y], |c, ins| {
+                let r = c.component_sub_point(typed(c, ins[0], ins[1]), typed(c, ins[2], ins[3]));
+                Ok(vec![*r.x(), *r.y()])
+            });
+            let mut c = GCase::new(g, Expect::Sat(vec![dif.x, dif.y]), "sub_point");
+            c.bound2 = true;
+            out.push(c);
+            // untyped addition seam agrees with the typed component
+            let g = Gadget::new(&format!("add_point_gates/{}+{}", n1, n2), vec![p1.x, p1.y, p2.x, p2.y], |c, ins| {
+                let a = c.verif_point(ins[0], ins[1]);
+                let b = c.verif_point(ins[2], ins[3]);
+                let r = c.verif_add_point_gates(a, b);
+                Ok(vec![*r.x(), *r.y()])
+            });
+            let mut c = GCase::new(g, Expect::Sat(vec![sum.x, sum.y]), "add_point_gates");
+            c.bound2 = tier == Tier::Thorough;
+            c.confirm = false;
+            out.push(c);
+        }
+        let neg = p1.neg();
+        let g = Gadget::new(&format!("neg_point/{}", n1), vec![p1.x, p1.y], |c, ins| {
+            let r = c.component_neg_point(typed(c, ins[0], ins[1]));
+            Ok(vec![*r.x(), *r.y()])
+        });
+        let mut c = GCase::new(g, Expect::Sat(vec![neg.x, neg.y]), "neg_point");
+        c.bound2 = true;
+        out.push(c);
+        // select_identity: boolean bits select, non-boolean bits are unsatisfiable
+        for bit in [0i64, 1, 2, -1] {
+            let g = Gadget::new(&format!("select_identity/{}/bit{}", n1, bit), vec![fi(bit), p1.x, p1.y], |c, ins| {
+                let r = c.component_select_identity(ins[0], typed(c, ins[1], ins[2]));
+                Ok(vec![*r.x(), *r.y()])
+            });
+            let e = match bit {
+                0 => Expect::Sat(vec![zero(), one()]),
+                1 => Expect::Sat(vec![p1.x, p1.y]),
+                _ => Expect::Unsat,
+            };
+            let mut c = GCase::new(g, e, "select_identity");
+            c.bound2 = true;
+            out.push(c);
+        }
+        // select_point: chosen input for a boolean bit
+        for (n2, p2) in pts.iter().take(3) {
+            for bit in [0i64, 1] {
+                let g = Gadget::new(&format!("select_point/{}|{}/bit{}", n1, n2, bit), vec![fi(bit), p1.x, p1.y, p2.x, p2.y], |c, ins| {
+                    let a = c.verif_point(ins[1], ins[2]);
+                    let b = c.verif_point(ins[3], ins[4]);
+                    let r = c.component_select_point(ins[0], a, b);
+                    Ok(vec![*r.x(), *r.y()])
+                });
+                let chosen = if bit == 1 { p1 } else { p2 };
+                let mut c = GCase::new(g, Expect::Sat(vec![chosen.x, chosen.y]), "select_point");
+                c.bound2 = tier == Tier::Thorough;
+                out.push(c);
+            }
+        }
+    }
+    // mul_point: scalars below 2^252 (any, also >= r_J) and out-of-range ones
+    let rj = r_jubjub();
+    let mut rho = Rho::new(seed(), 1299);
+    let scalars: Vec<(String, Fe)> = vec![
+        ("0".into(), zero()),
+        ("1".into(), one()),
+        ("2".into(), fe(2)),
+        ("rJ-1".into(), rj - one()),
+        ("rJ".into(), rj),
+        ("rJ+1".into(), rj + one()),
+        ("2^252-1".into(), pow2(252) - one()),
+        ("rho".into(), m5::low_bits(&rho.next_fe(), 252)),
+        ("2^252".into(), pow2(252)),
+        ("-1".into(), neg1()),
+    ];
+    let mul_points: Vec<(String, Pt)> = tier.pick(pts.iter().skip(1).take(1).cloned().collect(), pts.iter().take(4).cloned().collect());
+    for (pn, p) in &mul_points {
+        for (sn, s) in &scalars {
+            let g = Gadget::new(&format!("mul_point/{}*{}", sn, pn), vec![*s, p.x, p.y], |c, ins| {
+                let r = c.component_mul_point(ins[0], typed(c, ins[1], ins[2]));
+                Ok(vec![*r.x(), *r.y()])
+            });
+            let e = if m5::in_range(s, 252) {
+                let r = p.mul(&U320::from_fe(s)).unwrap();
+                Expect::Sat(vec![r.x, r.y])
+            } else {
+                Expect::Unsat
+            };
+            let mut c = GCase::new(g, e, "mul_point");
+            // ~2500 allocations per instance: stride the generic deviations
+            c.dev_stride = tier.pick(41, 5);
+            c.confirm = tier == Tier::Thorough || sn == "rJ+1" || sn == "2^252";
+            out.push(c);
+        }
+    }
+    out
+}
+
+pub fn main(tier: Tier, replay: Option<serde_json::Value>) -> i32 {
+    let mut run = Run::new("C12", tier, "model_checking");
+    run.rule = "cases = (component, subgroup points incl. O / P,-P / P,P, bits, scalars incl. r_J-1, r_J, r_J+1, 2^252-1, out-of-range); honest assignment + bound-1 (bound-2 for the few-row gadgets; strided for mul_point and reported) deviations through the real generator decided by M1; predicate: satisfiable, and every satisfying assignment returns the native group result (own affine Edwards arithmetic); select_identity unsatisfiable for non-boolean bits; scalars >= 2^252 unsatisfiable".into();
+    let cs = cases(tier);
+    let cache = ConfirmCache::new(crate::setup::pp(1 << 12));
+    if let Some(r) = replay {
+        return crate::gadget::replay(run, &cs, &cache, &r);
+    }
+    run.bound("mul_point_deviation_stride", json!(tier.pick(41, 5)));
+    if tier == Tier::Quick {
+        run.exhaustive = false;
+        run.capped = Some("mul_point generic deviations strided (every 41st ordinal + first/last 24); all other gadgets fully enumerated".into());
+    } else {
+        run.capped = Some("mul_point generic deviations strided (every 5th ordinal + first/last 24); all other gadgets fully enumerated at bound 2".into());
+    }
+    let names: Vec<String> = cs.iter().map(|c| c.g.name.clone()).collect();
+    let reps = crate::par::par_map(&cs, |c| run_case(c, &cache));
+    absorb(&mut run, reps, &names);
+    run.gate("honest satisfiable cases", run.count("honest:sat") > 0);
+    run.gate("unsatisfiable cases", run.count("honest:unsat") > 0);
+    run.assumptions = vec![
+        "M1 row model (bound to the prover by C05) decides satisfiability".into(),
+        "own affine twisted-Edwards arithmetic (M5) is the group-law specification".into(),
+        "inputs pinned; adversary deviates the gadget's own allocations".into(),
+    ];
+    run.finish()
 }
